@@ -60,6 +60,11 @@ theorem positional_bytes (d : Nat) (k : Int) : ∀ c ∈ positional d k, IsPosBy
     · exact Or.inr (zeros_digits _ c h)
     · exact Or.inr (dec_digits _ c h)
 
+theorem floatText_finite (D : Decoded) (layout : Nat → Int → Bytes) (h : D.special = false) :
+    floatText D layout = (if D.neg then sMinus else []) ++
+      (if D.m == 0 then [48] else layout (shortest D.fin).1 (shortest D.fin).2) := by
+  simp [floatText, h]
+
 /-! ### integers -/
 
 /-- `F` is the float of the integer `N`, and its neighbours are at most 1 away: the rounding interval reaches at most
@@ -117,6 +122,46 @@ theorem tryAt_sound {F : Fin} {a b d : Nat} (h : tryAt F a b = some d) : inIv F 
     · split at h
       · rename_i hb; simp only [Option.some.injEq] at h; rw [← h]; exact hb
       · exact absurd h (by simp)
+
+/-- the decimal `d · 10^k` lies in the rounding interval of `F`: it reads back as `F` -/
+def ReadsBack (F : Fin) (d : Nat) : Int → Prop
+  | .ofNat k => inIv F (10 ^ k) 1 d = true
+  | .negSucc j => inIv F 1 (10 ^ (j + 1)) d = true
+
+theorem searchPos_sound {F : Fin} : ∀ n d (k : Int), searchPos F n = some (d, k) → ReadsBack F d k
+  | 0, _, _, h => by simp [searchPos] at h
+  | n+1, d, k, h => by
+    unfold searchPos at h
+    split at h
+    · rename_i d' hd
+      simp only [Option.some.injEq, Prod.mk.injEq] at h
+      rw [← h.1, ← h.2]
+      exact tryAt_sound hd
+    · exact searchPos_sound n d k h
+
+theorem searchNeg_sound {F : Fin} : ∀ fuel j d (k : Int), 0 < j → searchNeg F fuel j = some (d, k) → ReadsBack F d k
+  | 0, _, _, _, _, h => by simp [searchNeg] at h
+  | fuel+1, j, d, k, hj, h => by
+    unfold searchNeg at h
+    split at h
+    · rename_i d' hd
+      simp only [Option.some.injEq, Prod.mk.injEq] at h
+      rw [← h.1, ← h.2]
+      obtain ⟨j', rfl⟩ : ∃ j', j = j' + 1 := ⟨j - 1, by omega⟩
+      exact tryAt_sound hd
+    · exact searchNeg_sound fuel (j + 1) d k (by omega) h
+
+/-- whatever the search for the shortest digits returns reads back as the same float -/
+theorem shortest_reads_back (F : Fin) (h : (searchPos F (startExp F)).isSome = true ∨ (searchNeg F 400 1).isSome = true) :
+    ReadsBack F (shortest F).1 (shortest F).2 := by
+  unfold shortest
+  cases hp : searchPos F (startExp F) with
+  | some r => exact searchPos_sound _ r.1 r.2 hp
+  | none =>
+    rw [hp] at h
+    cases hn : searchNeg F 400 1 with
+    | none => rw [hn] at h; simp at h
+    | some r => exact searchNeg_sound 400 1 r.1 r.2 (by decide) hn
 
 theorem tryAt_isSome_of_lo {F : Fin} {a b : Nat} (h : inIv F a b (F.vn * b / (a * F.den)) = true) :
     (tryAt F a b).isSome = true := by
